@@ -37,3 +37,61 @@ func init() {
 		return vBool(r)
 	}
 }
+
+// sort.Sort: in-place permutation of the underlying slice; sorted w.r.t. Less when the
+// element order is known to be a strict weak order (BySegment: lemmas segLess*).
+func init() {
+	externs["sort.Sort"] = func(c *FnCtx, st *State, call *ast.CallExpr, recv *Val, args []Val) Val {
+		at := c.typeOf(call.Args[0])
+		sl, ok := at.Underlying().(*types.Slice)
+		if !ok {
+			c.unsupport("sort.Sort on non-slice "+at.String(), call.Pos())
+			return Val{K: KUnit}
+		}
+		pv := c.payload(args[0].S, at)
+		ref, off, ln := pv.ref(), pv.off(), pv.ln()
+		elem := sl.Elem()
+		ek := c.elemKey(elem)
+		c.nfresh++
+		perm := fmt.Sprintf("sortPerm!%d", c.nfresh)
+		inv := fmt.Sprintf("sortInv!%d", c.nfresh)
+		c.declare(perm, []string{"Int"}, "Int")
+		c.declare(inv, []string{"Int"}, "Int")
+		c.ghostFns["sortPerm"] = perm
+		c.ghostFns["sortInv"] = inv
+		type comp struct{ old, nw string }
+		var comps []comp
+		c.w.proto(elem, "", func(path, sort string) string {
+			key := ek + path
+			heapSorts[key] = sort
+			o, n := c.havocHeap(st, key)
+			comps = append(comps, comp{o, n})
+			return ""
+		})
+		inRange := func(k string) string { return sAnd(sx("<=", "0", k), sx("<", k, ln)) }
+		for _, cp := range comps {
+			// frame
+			c.assume(st, fmt.Sprintf("(forall ((r Int) (i Int)) (! (=> (not (and (= r %s) (<= %s i) (< i (+ %s %s)))) (= (%s r i) (%s r i))) :pattern ((%s r i))))",
+				ref, off, off, ln, cp.nw, cp.old, cp.nw))
+			// permutation
+			c.assume(st, fmt.Sprintf("(forall ((k Int)) (! (=> %s (= (%s %s (+ %s k)) (%s %s (+ %s (%s k))))) :pattern ((%s %s (+ %s k)))))",
+				inRange("k"), cp.nw, ref, off, cp.old, ref, off, perm, cp.nw, ref, off))
+		}
+		c.assume(st, fmt.Sprintf("(forall ((k Int)) (! (=> %s (and %s (= (%s (%s k)) k))) :pattern ((%s k))))", inRange("k"), inRange(sx(perm, "k")), inv, perm, perm))
+		c.assume(st, fmt.Sprintf("(forall ((k Int)) (! (=> %s (and %s (= (%s (%s k)) k))) :pattern ((%s k))))", inRange("k"), inRange(sx(inv, "k")), perm, inv, inv))
+		if n, ok := at.(*types.Named); ok && n.Obj().Name() == "BySegment" {
+			// sorted: for a < b not Less(b, a), Less = lexicographic order on normalised segments
+			c.trusted["sort.Sort leaves the slice ordered w.r.t. BySegment.Less (licensed by lemmas segLessIrreflexive/Transitive/IncomparableTransitive)"] = true
+			a0 := sx(comps[0].nw, ref, sx("+", off, "a"))
+			a1 := sx(comps[1].nw, ref, sx("+", off, "a"))
+			b0 := sx(comps[0].nw, ref, sx("+", off, "b"))
+			b1 := sx(comps[1].nw, ref, sx("+", off, "b"))
+			less := func(x0, x1, y0, y1 string) string {
+				return sOr(sx("<", sx("imin", x0, x1), sx("imin", y0, y1)),
+					sAnd(sx("=", sx("imin", x0, x1), sx("imin", y0, y1)), sx("<", sx("imax", x0, x1), sx("imax", y0, y1))))
+			}
+			c.assume(st, fmt.Sprintf("(forall ((a Int) (b Int)) (! (=> (and (<= 0 a) (< a b) (< b %s)) (not %s)) :pattern (%s %s)))", ln, less(b0, b1, a0, a1), a0, b0))
+		}
+		return Val{K: KUnit}
+	}
+}
